@@ -606,7 +606,7 @@ pub fn rand_scenario(rng: &mut Rng) -> Scenario {
 pub fn batch(out: &str, tier: &str, seed: u64) -> Value {
     let mut b = Batch::new(Some(out));
     let thorough = tier == "thorough";
-    let (dfs_cap, nrand, per) = if thorough { (800usize, 1500usize, 2usize) } else { (60usize, 180usize, 2usize) };
+    let (dfs_cap, nrand, per) = if thorough { (800usize, 2500usize, 2usize) } else { (120usize, 450usize, 2usize) };
     let mut nontrivial = std::collections::HashSet::new();
     let mut bad_runs = 0u64;
     let mut steps = 0u64;
